@@ -61,7 +61,7 @@ func describe(ev tcell.Event) string {
 }
 
 func keyDesc(k tcell.Key, mod tcell.ModMask) string { return fmt.Sprintf("key:%d:%d", k, mod) }
-func runeDesc(r rune, mod tcell.ModMask) string    { return fmt.Sprintf("key:Rune:%d:%d", r, mod) }
+func runeDesc(r rune, mod tcell.ModMask) string     { return fmt.Sprintf("key:Rune:%d:%d", r, mod) }
 
 func newIW(cfg hx.Config, ch *simrt.Chooser) (*iw, error) {
 	world, err := hx.NewWorld(cfg, ch)
@@ -308,7 +308,7 @@ func (ks *keySeq) String() string {
 // caps is what the statement lets a harness know about a terminal's input
 // side: whether mouse, paste and OSC 52 replies are understood.
 type caps struct {
-	mouse, paste, clip bool
+	mouse, paste, clip   bool
 	pasteStart, pasteEnd string
 }
 
